@@ -11,6 +11,29 @@ from harness.encode import Unencodable
 from harness.props import ruledrv
 
 
+def confusable(rng, doc):
+    """rules whose paths differ only in the TYPE of a key (1 vs "1" vs 1.0 vs True, "a" vs "a "), on a document in
+    which those paths address different nodes (a mapping holding both keys, a list next to a mapping)"""
+    k1, k2 = rng.choice([(1, "1"), (0, "0"), (2, "2"), ("a", "a "), (1, "01"), (2, 2.5)])
+    sub = rng.choice([{k1: rng.choice([0, 5, "x"]), k2: rng.choice([9, "y", [1]])},
+                      [rng.choice([0, 7]), rng.choice([3, "z"]), rng.choice([8, None])],
+                      {k2: rng.choice([1, "q"])}])
+    key = rng.choice(["x", "a", 0])
+    if isinstance(doc, dict):
+        doc = dict(doc)
+        doc[key] = sub
+        head = [("prim", key)]
+    else:
+        doc = list(doc) + [sub]
+        head = [("prim", len(doc) - 1)]
+    conds = [ruledrv.value_tree(rng, 1) for _ in range(2)]
+    rules = [{"rparts": head + [("prim", k1)], "cond": conds[0], "cast": None},
+             {"rparts": head + [("prim", k2)], "cond": conds[1], "cast": None}]
+    if rng.random() < 0.5:
+        rules.append({"rparts": head + [("prim", k1)], "cond": conds[1], "cast": None})
+    return doc, rules
+
+
 def run(rep, tier, seed):
     a = tlc.model_check_sharded("MC_Schema", "MC_Schema_c06.cfg")
     rep.add_tlc(a, "A:MC_Schema_c06")
@@ -28,6 +51,11 @@ def run(rep, tier, seed):
                 rrs.append(rng.choice(rrs))              # identical rule twice
             else:
                 rrs.append(ruledrv.rule_recipe(rng, doc, maxlen=3))
+        if rng.random() < 0.35:
+            doc, extra = confusable(rng, doc)
+            rrs = (rrs + extra)[-6:] if extra else rrs
+            rng.shuffle(rrs)
+            n = len(rrs)
         try:
             base = ruledrv.validate_event(len(events) + 1, rrs, doc)
         except Unencodable:
